@@ -33,6 +33,14 @@ at any depth is an ERROR (`marshal_total_partial`, `marked_nested_rejected_err`)
 `convert.Convert` path of `Marshal` (`marshalC…`, with `marked_rejected_on_conversion_path` — once false: a
 recorded finding); /repo bb6ac26 (`known_length_list_refused`).
 
+Added by slice d16b (second deepening): the regenerated DECODER of unknown values (`unmarshalUnknownValue`, translated from
+cty/msgpack/unknown.go on every check) is tied to the model by a THEOREM for every extension item and every type — an
+induction over the refinement-entry loop, no side condition, errors up to their text (`unmarshal_unknown_generated`;
+`unmarshal_unknown_generated_plain` for this file's `unmarshal`, on streams without an extension item in the place of a
+numeric bound, which is every stream the encoder writes) — instead of a kernel-evaluated battery; "refinements are never
+narrowed or invented" holds of the regenerated encoder and decoder COMPOSED (`unknown_roundtrip_generated`); the known-length
+refusal and the absence of panics are stated of the regenerated decoder too.
+
 The full-strength statement `RoundtripCovers` is FALSE of the code as it exists;
 it is kept as a `def`, with three counterexamples (each the replay of a recorded
 finding) and the strongest partial theorem `roundtrip_covers_partial` (side condition `Fits`).
